@@ -2091,6 +2091,7 @@ insert_list:
             } else {
                 auto next = th->remove_from_list();
                 stolen.push_back(th); count++;
+                VT_EVT(VT_STEAL, th, v, th->vcpu, 0);
                 th->vcpu->nthreads--;
                 th->vcpu = v;
                 v->nthreads++;
@@ -2118,6 +2119,7 @@ insert_list:
             DEFER(lk->unlock());
             q.pop_front();
             stolen.push_back(th);
+            VT_EVT(VT_STEAL, th, v, th->vcpu, 1);
             th->vcpu->nthreads--;
             th->vcpu = v;
             v->nthreads++;
